@@ -35,8 +35,11 @@ func init() {
 					}
 				}
 			case "sum":
-				out := objs[st.Int("o")].Sum(st.Hex("prefix"))
+				out := objs[st.Int("o")].Sum(st.HexMut("prefix"))
 				if mm := Diff(i, out, st.Hex("exp")); mm != nil {
+					return mm
+				}
+				if mm := SumRoomy(i, objs[st.Int("o")], st.Hex("prefix"), st.Hex("exp")); mm != nil {
 					return mm
 				}
 			case "reset":
